@@ -1,25 +1,28 @@
 #!/bin/bash
 # usage: tools/run_seeds.sh [seed dir names...]  (default: all of /verif/seeded)
-# For every stored seeded change: apply it to /repo, run the check of its property (evidence and
-# replay files go to a scratch directory, not /verif), undo it straight afterwards. Prints one line per seed.
-# Refuses to run when /repo has uncommitted changes.
+# Must-fail corpus. For every stored seeded change: apply it to a SCRATCH CLONE of /repo's HEAD (under
+# /var/tmp, removed afterwards; /repo itself is not touched), run the check of its property against that
+# clone (GOVC_REPO; evidence and replay files go to a scratch directory, not /verif) and print one line.
+# Equivalent to `git -C /repo apply <patch>; ./check <id>; git -C /repo apply -R <patch>`, which is what the
+# corpus was first run with; the clone only makes it safe to keep working in /repo meanwhile.
 export GOFLAGS=-mod=mod GOPROXY=off GOSUMDB=off GOTOOLCHAIN=local
-cd /repo || exit 2
-if [ -n "$(git status --porcelain)" ]; then echo "REFUSED: /repo has uncommitted changes"; exit 2; fi
-OUT=/var/tmp/seedrun; rm -rf $OUT; mkdir -p $OUT
+CLONE=/var/tmp/repo-seeds.$$; OUT=/var/tmp/seedrun.$$
+rm -rf $CLONE $OUT; mkdir -p $OUT
+git clone -q /repo $CLONE || exit 2
+trap 'rm -rf $CLONE $OUT' EXIT
 seeds="$@"; [ -z "$seeds" ] && seeds=$(ls /verif/seeded)
 miss=0
 for s in $seeds; do
   id=${s%%-*}
   P=/verif/seeded/$s/patch.diff
-  git apply "$P" || { echo "$s: PATCH DOES NOT APPLY"; miss=1; continue; }
-  /verif/bin/govc check -prop $id -tier quick -out $OUT > $OUT/$s.log 2>&1; rc=$?
-  git apply -R "$P"
-  [ -n "$(git status --porcelain)" ] && { echo "$s: REVERT FAILED"; exit 2; }
-  kinds=$(grep -o "(refuted)\|(undecided[^)]*)\|(left-verifiable-subset)\|(vacuous)\|(bounded[^)]*)\|(fail)\|(unclassified-handler)\|([a-z-]*)" $OUT/$s.log | sort | uniq -c | tr '\n' ' ')
+  git -C $CLONE apply "$P" || { echo "$s: PATCH DOES NOT APPLY"; miss=1; continue; }
+  GOVC_REPO=$CLONE /verif/bin/govc check -prop $id -tier quick -out $OUT > $OUT/$s.log 2>&1; rc=$?
+  git -C $CLONE apply -R "$P"
+  [ -n "$(git -C $CLONE status --porcelain)" ] && { echo "$s: REVERT FAILED"; exit 2; }
+  kinds=$(grep -o "(refuted)\|(undecided[^)]*)\|(left-verifiable-subset)\|(vacuous)\|(failed)\|(unclassified-handler)" $OUT/$s.log | sort | uniq -c | tr '\n' ' ')
   first=$(grep VIOLATION $OUT/$s.log | head -1 | sed 's/.*obligation=//' | cut -c1-110)
-  repro=$(grep -l "REPRODUCED" $OUT/replay/$id/* 2>/dev/null | head -1)
+  repro=$(grep -l "^REPRODUCED" $OUT/replay/$id/* 2>/dev/null | head -1)
   if [ $rc -eq 0 ]; then echo "$s: MISSED (exit 0)"; miss=1; else echo "$s: caught exit=$rc $kinds first: $first ${repro:+[replayed]}"; fi
+  rm -rf $OUT/replay $OUT/evidence
 done
-rm -rf $OUT/replay $OUT/evidence
 exit $miss
